@@ -442,7 +442,7 @@ var c05Ops = []c05Op{
 	}},
 	{"packet.IOWriter", "stream", true, func(in []byte, arg int) string {
 		w := &recWriter{failAt: arg % 4}
-		wr, rf := c18Adapter(c18Adapters[arg%4], w)
+		wr, rf := c18Adapter(c18Adapters[arg%len(c18Adapters)], w)
 		_, err := wr.Write(in)
 		var rd io.Reader = bytes.NewReader(in)
 		if arg%2 == 1 {
